@@ -354,16 +354,20 @@ Fixpoint frag_items (pv sv bound : N) (k : nat) (scg : list N) (fl : list (N * k
              && fbody_check (frag_stmts pv sv bound (snd (bind_scope ps ks scg fl')) k (fst (bind_scope ps ks scg fl')))
                             (fun fl1 sc1 e => frag_fexpr pv sv bound fl1 k sc1 e) k body rk
           then frag_items pv sv bound k scg fl' rest else None
-      | SDefinition _ _ _ _ _ _ =>
+      | SDefinition _ x _ _ v _ =>
           match frag_stmt pv sv bound fl k scg s with
           | Some scg' => frag_items pv sv bound k scg' fl rest
-          | None => None
+          | None =>                                       (* x :: <a function value>, as in frag_stmts *)
+              match frag_fexpr pv sv bound ((x, KP) :: fl) k scg v with
+              | Some K => if fresh_id pv sv bound fl scg x then frag_items pv sv bound k scg ((x, K) :: fl) rest else None
+              | None => None
+              end
           end
       | _ => None
       end
   end.
 
-(* STAGE 4h (4g + FUNCTION-VALUED CONSTANTS  x :: <function value>  in any statement list: the value is the name of a
+(* STAGE 4h (4g + FUNCTION-VALUED CONSTANTS  x :: <function value>  in any statement list and among the outer definitions: the value is the name of a
    function, a lambda (that is a local function), or a call that returns a function -- `c :: mkc(0)` --; from there to
    the end of the list x is a function name: it can be called and passed on like any other.  While its value is
    computed the name exists and cannot be used (frag_stmts, the entry (x, KP));
@@ -417,7 +421,7 @@ Fixpoint frag_items (pv sv bound : N) (k : nat) (scg : list N) (fl : list (N * k
    position, as the value of a constant or as the result of a function; a function name can be called and passed to a parameter of the same function kind, nothing
    else: so print, the operators, the conditions and the assignments only ever see plain values.
    NOT in the fragment: `ret` without a value (it returns Sylt's nil, the table __NIL), ASSIGNMENTS of function
-   values (`c = mk(2)`), function-valued definitions at the top level (`g :: mk(1)` outside a function), function values called where they are computed
+   values (`c = mk(2)`), function values called where they are computed
    (`mk(1)(2)`), `ret` of a function value, blobs, tuples, lists, enums/case, floats, division. *)
 Definition frag (k : nat) (r : resolved) : bool :=
   let bound := N.of_nat (length (r_vars r)) + 1 in
